@@ -64,6 +64,8 @@ class Library:
         if ty.kinds.get(ct) == 'handle':
             return ['typedef hnd_t %s;' % ct]
         if ty.kinds.get(ct) == 'value':
+            if ct in self.u.cfg.get('type_kinds', {}) and self.u.cfg.get('prelude'):
+                return []       # defined by the unit's prelude header
             raise_unsupported('value type %s has no definition' % ct)
         return []
 
